@@ -353,39 +353,13 @@ Variable min_required : Z.
 Variable finder : Z -> bool * Z.
 Variable exec : Z -> option R * Z.
 
-Definition sc_range : list Z := map Z.of_nat (seq 0 (S (Z.to_nat n))).
-Definition sc_in_text_b (p : Z) : bool := (0 <=? p) && (p <=? n).
-Definition sc_ord_b (p q : Z) : bool := if rtl then q <=? p else p <=? q.
-Definition sc_before_b (p q : Z) : bool := if rtl then q <? p else p <? q.
-Definition sc_fails_b (x : Z) : bool := match fst (exec x) with None => true | Some _ => false end.
-
-(* nothing matches in the closed / half-open interval *)
-Definition sc_all_fail_incl (p q : Z) : bool :=
-  forallb (fun x => implb (sc_ord_b p x && sc_ord_b x q) (sc_fails_b x)) sc_range.
-Definition sc_all_fail_excl (p q : Z) : bool :=
-  forallb (fun x => implb (sc_ord_b p x && sc_before_b x q) (sc_fails_b x)) sc_range.
-
-Definition sc_chk_H1 : bool :=
-  forallb (fun p =>
-    let '(found, q) := finder p in
-    sc_ord_b p q && sc_in_text_b q &&
-    (if found then sc_all_fail_excl p q else sc_all_fail_incl p q)) sc_range.
-Definition sc_chk_H2 : bool :=
-  forallb (fun x => implb ((if rtl then x else n - x) <? min_required) (sc_fails_b x)) sc_range.
-Definition sc_chk_H3 : bool :=
-  forallb (fun p =>
-    match exec p with
-    | (None, q) => sc_ord_b p q && sc_in_text_b q && sc_all_fail_incl p q
-    | _ => true
-    end) sc_range.
-
-Lemma sc_range_in : forall x, sc_in_text n x -> In x sc_range.
+Lemma sc_range_in : forall x, sc_in_text n x -> In x (sc_range n).
 Proof.
   intros x Hx. unfold sc_range, sc_in_text in *.
   replace x with (Z.of_nat (Z.to_nat x)) by lia. apply in_map. apply in_seq. lia.
 Qed.
 
-Lemma sc_fails_b_ok : forall x, sc_fails_b x = true -> sc_fails R exec x.
+Lemma sc_fails_b_ok : forall x, sc_fails_b R exec x = true -> sc_fails R exec x.
 Proof.
   intros x H. unfold sc_fails_b, sc_fails in *. destruct (fst (exec x)); [discriminate | reflexivity].
 Qed.
@@ -394,28 +368,28 @@ Ltac scb_lia := unfold sc_in_text, sc_ord, sc_before, sc_in_text_b, sc_ord_b, sc
                 destruct rtl; lia.
 
 Lemma sc_all_fail_incl_ok : forall p q, sc_in_text n p -> sc_in_text n q ->
-  sc_all_fail_incl p q = true ->
+  sc_all_fail_incl R n rtl exec p q = true ->
   forall x, sc_ord rtl p x -> sc_ord rtl x q -> sc_fails R exec x.
 Proof.
   intros p q Hp Hq H x H1 H2. unfold sc_all_fail_incl in H. rewrite forallb_forall in H.
   assert (Hx : sc_in_text n x) by scb_lia.
   specialize (H x (sc_range_in x Hx)). apply sc_fails_b_ok.
-  assert (Hc : sc_ord_b p x && sc_ord_b x q = true) by scb_lia.
+  assert (Hc : sc_ord_b rtl p x && sc_ord_b rtl x q = true) by scb_lia.
   rewrite Hc in H. exact H.
 Qed.
 
 Lemma sc_all_fail_excl_ok : forall p q, sc_in_text n p -> sc_in_text n q ->
-  sc_all_fail_excl p q = true ->
+  sc_all_fail_excl R n rtl exec p q = true ->
   forall x, sc_ord rtl p x -> sc_before rtl x q -> sc_fails R exec x.
 Proof.
   intros p q Hp Hq H x H1 H2. unfold sc_all_fail_excl in H. rewrite forallb_forall in H.
   assert (Hx : sc_in_text n x) by scb_lia.
   specialize (H x (sc_range_in x Hx)). apply sc_fails_b_ok.
-  assert (Hc : sc_ord_b p x && sc_before_b x q = true) by scb_lia.
+  assert (Hc : sc_ord_b rtl p x && sc_before_b rtl x q = true) by scb_lia.
   rewrite Hc in H. exact H.
 Qed.
 
-Lemma sc_chk_H1_ok : sc_chk_H1 = true ->
+Lemma sc_chk_H1_ok : sc_chk_H1 R n rtl finder exec = true ->
   sc_H1_true R n rtl finder exec /\ sc_H1_false R n rtl finder exec.
 Proof.
   intros H. unfold sc_chk_H1 in H. rewrite forallb_forall in H.
@@ -427,7 +401,7 @@ Proof.
   - apply sc_all_fail_incl_ok; assumption.
 Qed.
 
-Lemma sc_chk_H2_ok : sc_chk_H2 = true -> sc_H2 R n rtl min_required exec.
+Lemma sc_chk_H2_ok : sc_chk_H2 R n rtl min_required exec = true -> sc_H2 R n rtl min_required exec.
 Proof.
   intros H x Hx Ha. unfold sc_chk_H2 in H. rewrite forallb_forall in H.
   specialize (H x (sc_range_in x Hx)). apply sc_fails_b_ok.
@@ -435,7 +409,7 @@ Proof.
   rewrite Hc in H. exact H.
 Qed.
 
-Lemma sc_chk_H3_ok : sc_chk_H3 = true -> sc_H3 R n rtl exec.
+Lemma sc_chk_H3_ok : sc_chk_H3 R n rtl exec = true -> sc_H3 R n rtl exec.
 Proof.
   intros H p q Hp He. unfold sc_chk_H3 in H. rewrite forallb_forall in H.
   specialize (H p (sc_range_in p Hp)). rewrite He in H.
